@@ -23,6 +23,14 @@ ALLOW = {
     ('list_utility.py:remove_if', 'seq'): 'list utility documented to filter in place; callers pass fresh lists (checked by rule a at each call site)',
 }
 PARTIAL_MAP_CLASSES = {'NFA', 'PDA', 'TM'}
+# procedures whose contract is to work on the object they are handed (confirmed by reading; everything else that is reachable
+# from the operations of a property is expected to leave its operands alone)
+PROCEDURES = {
+    'cfg_algorithms.py:cfg_put_start_variable_in_front': 'in-place step of cfg_eliminate_unit_rules_in_place',
+    'nfa_algorithms.py:_add_nfa_transitions': 'fills the fresh transition map the constructions hand to it',
+    'regexp_algorithms.py:gnfa_minimize': 'rips the states of the GNFA that dfa_to_regexp built for this purpose',
+    'list_utility.py:remove_if': 'documented in-place filter',
+}
 
 
 def returns_value(f):
@@ -222,3 +230,50 @@ def check_guarded_reads(ctx, rep, funcs, rule=RULE + '.c'):
             else:
                 rep.violates(rule, f, e, 'unguarded subscript read of the partial transition map {}.delta of a {}: KeyError on a plain mapping, silent key insertion into the operand on a defaultdict'.format(base[0], base[1]))
     return n
+
+
+def is_procedure(f):
+    return f.name.endswith('_in_place') or f.name.startswith('__') or f.short in PROCEDURES
+
+
+def check_scope_operands(ctx, rep, roots, rule=RULE + '.a'):
+    """closure-wide form of rule a: every top-level function that a value-returning operation of the property reaches
+    WITHOUT passing through a procedure (*_in_place, a constructor, the procedures listed above) leaves its operands
+    alone: a callee that extends the set it was handed corrupts whatever the caller still holds (a history, a cache entry,
+    the operand).  Helpers that only the in-place procedures call work on the object those procedures own and are exempt."""
+    from .state import reachable_functions
+    done = {i.where for i in rep.instances if i.rule == rule}
+    # a root that only procedures call is part of their machinery (cfg_fresh_variable, the phase helpers)
+    callers = {}
+    for g in ctx.prog.functions.values():
+        if g.module.name.startswith('template:'):
+            continue
+        top = g
+        while top.parent is not None:
+            top = top.parent
+        for c in ctx.prog.calls_in(g):
+            r = ctx.resolve_call(g, c)
+            if r is not None and r.kind == 'func':
+                callers.setdefault(r.target.qualname, set()).add(top)
+
+    def owned_by_procedures(f):
+        cs = callers.get(f.qualname, set()) - {f}
+        return bool(cs) and all(is_procedure(c) for c in cs)
+    tops = []
+    for f in roots:
+        while f.parent is not None:
+            f = f.parent
+        if not is_procedure(f) and not owned_by_procedures(f):
+            tops.append(f)
+    scope = reachable_functions(ctx, tops, stop=is_procedure)
+    fs = []
+    for f in scope.values():
+        if f.short in done:
+            continue
+        if f.module.base[:-3] not in PURE_MODULES:
+            continue
+        if ctx.effects.summary(f) is None:
+            continue
+        fs.append(f)
+    check_no_operand_mutation(ctx, rep, fs, rule=rule)
+    return len(fs)
